@@ -488,7 +488,11 @@ func (p *parser) parseWorkflowCallEvent(pos *Pos, n *yaml.Node) *WorkflowCallEve
 					case "required":
 						input.Required = p.parseBool(attr.val)
 					case "default":
-						input.Default = p.parseString(attr.val, true)
+						// `default:` and `default: null` give no default value. Reusable workflow metadata
+						// read from a workflow file (reusable_workflow.go) sees them in the same way
+						if attr.val.Kind != yaml.ScalarNode || attr.val.Tag != "!!null" {
+							input.Default = p.parseString(attr.val, true)
+						}
 					case "type":
 						switch attr.val.Value {
 						case "boolean":
